@@ -964,10 +964,28 @@ def builder_columns(chk, src):
             def array(x, **k):
                 return x
 
+        class OutOps(list):
+            """outgoing operators of one node: a list of [operator tuple] rows, known to the rule by the node it belongs to"""
+            def __init__(self, tag):
+                super().__init__([[Sym("optuple", qn="qn", symbol=(0, 0), factor=1)]])
+                self.tag = tag
+
+            def __eq__(self, o):
+                return self.tag == o if isinstance(o, str) else (isinstance(o, OutOps) and o.tag == self.tag)
+
+            def __ne__(self, o):
+                return not self.__eq__(o)
+
+            def __hash__(self):
+                return hash(self.tag)
+
+            def __repr__(self):
+                return self.tag
+
         def one_site(table_row, table_col, in_ops_list, factor, primary_ops, algo, k):
             log.append((list(table_row.cols), list(in_ops_list), k))
             node = order[len(log) - 1]
-            return f"out({node})", ColTable([f"out({node})"] + table_col.cols), factor
+            return OutOps(f"out({node})"), ColTable([f"out({node})"] + table_col.cols), factor
 
         def terms_to_table(model, terms, const):
             return ColTable(model.basis), "primary_ops", "factor"
@@ -985,12 +1003,12 @@ def builder_columns(chk, src):
                 return recv.__dict__[name]
             return None
         it = SymInterp(src, resolver, builtins)
-        # interpret only the construction loop (the second loop assembles symbolic matrices and is checked by `layout`)
+        # the whole function is interpreted; the assembly of the symbolic matrices (checked by `layout`) and of the label arrays works on stand-ins
         env = it.new_env(fi, tn=tn, terms="terms", const=0, algo="qr")
         try:
             body = fi.node.body
             for s in body:
-                if isinstance(s, ast.For) and "compose_symbolic_mo_general" in unparse(s):
+                if isinstance(s, ast.Return):
                     break
                 if isinstance(s, ast.Expr):
                     continue
@@ -1711,17 +1729,21 @@ def ttno_layout(chk, src):
         passed_terms.append(list(terms))
         order = trav[used["construct"][0]] if used["construct"] else []
         return [("mo", n._name) for n in order], [("qn", n._name) for n in order]
-    iti = SymInterp(src, None, {"construct_symbolic_ttno": construct, "Op": None, "backend": Blob("backend"),
+    from .chain_rules import class_resolver
+    iti = SymInterp(src, class_resolver(src, {"TTNO": TREE}), {"construct_symbolic_ttno": construct, "Op": None, "backend": Blob("backend"),
                                 "symbolic_mo_to_numeric_mo_general": lambda bs, mo, dtype: conv.append((list(bs), mo)) or ("mat",) + tuple(mo[1:]),
                                 "TreeNodeTensor": lambda mat, qn=None: Sym(f"tnode({mat[1]})", made_from=(mat, qn)),
                                 "copy_connection": lambda a_, b_: conn.append((list(a_), list(b_))) or "root",
                                 "super": lambda: Sym("super", __init__=lambda *a_: None)})
     me = Sym("ttno")
+    me._cls = "TTNO"
     given = [Sym("term0", factor=Sym("factor0")), Sym("term1", factor=Sym("factor1"))]
     # the operator terms must reach the builder as given: value-dependent filters (tolerances) are run with both outcomes
     for verdict in (True, False):
         iti.builtins["np"] = OpenSym("np", isclose=lambda *a, **k: verdict, allclose=lambda *a, **k: verdict, abs=lambda x: Sym("abs"))
-        iti.call_function(init, [Sym("ttno"), mk_basis("init"), list(given)])
+        me_ = Sym("ttno")
+        me_._cls = "TTNO"
+        iti.call_function(init, [me_, mk_basis("init"), list(given)])
     terms_ok = all(len(t) == len(given) and all(a is b for a, b in zip(t, given)) for t in passed_terms) and len(passed_terms) == 2
     chk.ob("layout", "TTNO.__init__ hands every given term to the builder", terms_ok, init.where, [[repr(x) for x in t] for t in passed_terms], "the given terms, unfiltered (exact zeros may be dropped)", line=init.node.lineno,
            detail="a term dropped because its coefficient is below some tolerance makes the operator differ from the sum of its terms (small couplings are still couplings)")
